@@ -233,6 +233,11 @@ func (a *attributeQuery) Select(t iterator) NodeNavigator {
 				return nil
 			}
 			node = node.Copy()
+			if node.NodeType() == AttributeNode {
+				// an attribute has no attributes; MoveToNextAttribute would go on
+				// to the next attribute of the same element
+				continue
+			}
 			a.iterator = func() NodeNavigator {
 				for {
 					onAttr := node.MoveToNextAttribute()
